@@ -155,7 +155,8 @@ def run_c_probe(header, hdr, outdir):
                 lines.append('  printf("F %s %s %%zu %%zu\\n", offsetof(struct %s, %s), sizeof(((struct %s *)0)->%s));'
                              % (sname, f["name"], sname, f["name"], sname, f["name"]))
     for c in consts:
-        lines.append('  printf("C %s %%llu\\n", (unsigned long long)(%s));' % (c, c))
+        # a 32-bit `int` expression such as (1 << 31) must not be sign-extended
+        lines.append('  printf("C %s %%llu\\n", sizeof(%s) <= 4 ? (unsigned long long)(uint32_t)(%s) : (unsigned long long)(%s));' % (c, c, c, c))
     lines += ["  return 0;", "}"]
     src = os.path.join(outdir, "probe.c")
     exe = os.path.join(outdir, "probe")
@@ -360,11 +361,9 @@ def eval_rust_expr(expr, env):
     e = e.replace("!", "~")
     if not re.fullmatch(r"[\w\s<>|&^~+\-*/()%]*", e):
         return None
-    names = set(re.findall(r"\b[A-Za-z_]\w*\b", e)) - {"0x"}
+    names = set(re.findall(r"\b[A-Za-z_]\w*\b", e))
     scope = {}
     for nme in names:
-        if re.fullmatch(r"0[xbo]\w+", nme):
-            continue
         if nme in env and env[nme] is not None:
             scope[nme] = env[nme]
         else:
@@ -446,6 +445,8 @@ class Gen:
         self.harnesses = []     # generated Kani harnesses: {name, obligations, asserts:[...]}
         self.assert_index = {}  # assertion message -> metadata
         self.notes = []
+        self._bf_partner = {}   # "T::M" -> kernel constant
+        self.used_k = set()     # kernel constants that have a Rust partner
 
     # -- reporting helpers --------------------------------------------------
     def fail(self, obligation, kind, function, file, line, text, rendered, witness=None):
@@ -467,6 +468,10 @@ class Gen:
                                   "witness": {"kernel": expected, "rust_source_text": rust_text}}
 
     def new_harness(self, name):
+        base, n = name, 1
+        while any(h["name"] == name for h in self.harnesses):
+            n += 1
+            name = "%s_%d" % (base, n)
         h = {"name": name, "obligations": [], "asserts": []}
         self.harnesses.append(h)
         return h
@@ -540,6 +545,7 @@ class Gen:
                     if w.get("size_const"):
                         if w["size_const"] not in self.kvalues:
                             raise ToolError("abi_map.json: size_const %s not in header" % w["size_const"])
+                        self.used_k.add(w["size_const"])
                         if self.kvalues[w["size_const"]] != wsize:
                             raise ToolError("abi_map.json struct_windows[%s]: window is %d bytes but %s = %d" % (name, wsize, w["size_const"], self.kvalues[w["size_const"]]))
                 else:
@@ -552,9 +558,15 @@ class Gen:
                 path = "%s::%s" % (r["module"], name)
                 h["uses"] = [path]
                 kdesc = "struct %s" % k + ("" if name not in windows else " bytes [%d, %d)" % (base, base + wsize))
-                self.add_assert(h, obl, "core::mem::size_of::<%s>() == %d" % (name, wsize),
-                                "size_of::<%s>() == %d (%s)" % (name, wsize, kdesc), "struct " + name, file, s["line"],
-                                expected=wsize, rust_text=rlay["size"] if rlay else None)
+                if s["public"]:
+                    self.add_assert(h, obl, "core::mem::size_of::<%s>() == %d" % (name, wsize),
+                                    "size_of::<%s>() == %d (%s)" % (name, wsize, kdesc), "struct " + name, file, s["line"],
+                                    expected=wsize, rust_text=rlay["size"] if rlay else None)
+                else:
+                    self.harnesses.remove(h)
+                    self.text_check(obl, "private struct %s has size %d (%s), from source text under repr(C)" % (name, wsize, kdesc),
+                                    rlay is not None and rlay["size"] == wsize, "struct " + name, file, s["line"],
+                                    witness={"kernel": wsize, "rust_source_text": rlay["size"] if rlay else None})
                 covered = set()
                 for f in s["fields"]:
                     key = (name, f["name"])
@@ -677,13 +689,13 @@ class Gen:
                     continue
                 free_pairs[nm] = k
                 c["kernel"] = k
+                self.used_k.add(k)
             # which private constants have a public route through a bitflags member?
             routed = {}
             for bf in r["bitflags"]:
                 for mem in bf["members"]:
                     if re.fullmatch(r"\w+", mem["expr"]) and not mem["expr"][0].isdigit():
                         routed.setdefault(mem["expr"], []).append((bf, mem))
-            self._bf_partner = {}
             # ---- bitflags
             for bf in r["bitflags"]:
                 prefixes = m.get("bitflags_prefixes", {}).get(bf["name"], ["FUSE_", ""])
@@ -709,6 +721,7 @@ class Gen:
                                   "Rust flag %s has no kernel partner (looked for %s) and no entry in abi_map.json" % (q, ", ".join(p + mem["name"] for p in prefixes)))
                         continue
                     self._bf_partner[q] = k
+                    self.used_k.add(k)
                     paired_vals.append(kv[k])
                     tv = eval_rust_expr(mem["expr"], env)
                     if bf["public"]:
@@ -793,6 +806,7 @@ class Gen:
                                       q, ", ".join(p + camel_to_snake(v["name"]).upper() for p in prefixes)))
                         continue
                     paired[q] = k
+                    self.used_k.add(k)
                     if en["public"]:
                         self.add_assert(h, obl, "%s as u32 as u64 == %d" % (q, kv[k]), "%s as u32 == %d (%s)" % (q, kv[k], k), q, file, v["line"], expected=kv[k], rust_text=tv)
                     else:
@@ -813,6 +827,7 @@ class Gen:
                     if not en["public"]:
                         continue
                     if "kernel" in s:
+                        self.used_k.add(s["kernel"])
                         self.add_assert(h, obl, "%s as u32 as u64 >= %d" % (q, kv[s["kernel"]]), "%s as u32 >= %d (%s)" % (q, kv[s["kernel"]], s["kernel"]),
                                         q, file, v["line"], expected=">= %d" % kv[s["kernel"]], rust_text=tv)
                         for x in others:
@@ -827,20 +842,10 @@ class Gen:
         if not hasattr(self, "supported_opcodes"):
             raise ToolError("enum Opcode not found in the Rust ABI sources")
         # informational: header constants the library does not define
-        used = set()
-        for a in self.assert_index.values():
-            pass
-        defined = set()
-        for r in self.rust:
-            for c in r["consts"]:
-                if c.get("kernel"):
-                    defined.add(c["kernel"])
-        defined |= set(self._bf_partner.values())
         enum_consts = {n for names in self.hdr["enums"].values() for n in names}
         for k in sorted(kv):
-            if k not in defined and k not in enum_consts and not k.startswith("CUSE_"):
-                if not any(k in (a["site"]["text"] or "") for a in self.assert_index.values()):
-                    self.kernel_only.append("constant %s = %#x (not defined by the library)" % (k, kv[k]))
+            if k not in self.used_k and k not in enum_consts and not k.startswith("CUSE_"):
+                self.kernel_only.append("constant %s = %#x (not defined by the library)" % (k, kv[k]))
 
     # -- crate ------------------------------------------------------------------
     def emit_crate(self):
@@ -875,8 +880,12 @@ class Gen:
             g.append("#[kani::proof]")
             g.append("fn %s() {" % h["name"])
             g.append('    kani::cover!(true, "reached");')
-            for a in h["asserts"]:
-                g.append("    assert!(%s, %s);" % (a["cond"], json.dumps(a["msg"])))
+            g.append("    // every check sits on its own path (selector), so one failing check cannot mask another")
+            g.append("    let sel: u16 = kani::any();")
+            for i, a in enumerate(h["asserts"]):
+                g.append("    if sel == %d {" % i)
+                g.append("        assert!(%s, %s);" % (a["cond"], json.dumps(a["msg"])))
+                g.append("    }")
             g.append("}")
             g.append("")
         with open(os.path.join(out, "src", "gen.rs"), "w") as f:
